@@ -68,7 +68,7 @@ def create_table(rng, tname="t"):
         if rng.random() < .2:
             cons.append("UNIQUE")
         if rng.random() < .2:
-            cons.append("DEFAULT " + rng.choice(["0", "-5", "17", "'txt'", "NULL", "'it''s'"]))
+            cons.append("DEFAULT " + rng.choice(["0", "-5", "17", "'txt'", "NULL", "'it''s'", "true", "FALSE", "'true'", "word", "+3"]))
         if rng.random() < .25:
             cons.append("COLLATE " + rng.choice(COLLS))
         if rng.random() < .1:
